@@ -1150,7 +1150,13 @@ class FnItem:
             sig = sig.rstrip()
             sig += ("\n    where " if " where " not in sig and "\nwhere" not in sig else ", ") + sp["sig_where"]
         pieces = []
-        for a in sp.get("attrs", []):
+        attrs = list(sp.get("attrs", []))
+        if loop_heads(body) and not any("loop_isolation" in a for a in attrs) and not sp.get("loop_isolation"):
+            # loops see the facts established before them about variables they do not modify (Verus' default isolates a loop from its
+            # context, so a local that is merely introduced before a loop - `let check = !self.skip;` - would make a correct body fail)
+            attrs.append("#[verifier::loop_isolation(false)]")
+            attrs.append("#[verifier::allow_complex_invariants]")
+        for a in attrs:
             pieces.append(Piece(a, ("gen", "attr")))
         pieces.append(Piece(sig, ("repo", self.rel, self.first_line, self.qualname())))
         if sp.get("requires"):
